@@ -171,14 +171,14 @@ def main(argv):
     # kernel 2: child-list construction on element / fragment / KeepAlive / custom-element hosts (whole-module runs)
     from . import c03, elements
     import importlib
-    kj = [{'module': 'mirsym.checks.c03', 'spec': sp} for sp in c03.kid_jobs(rep.tier, c03.ELEM_HOSTS, lambda h: [''])]
+    kj = [{'module': 'mirsym.checks.c03', 'spec': sp} for sp in c03.kid_jobs(rep.tier, c03.ELEM_HOSTS, lambda h: ['']) + c03.text_host_jobs(rep.tier)]
     res2 = common.run_jobs('mirsym.checks.elements', 'run_family_job', kj)
     raw2 = []
     for r in res2:
         raw2.extend(r.pop('violations', []))
         rep.absorb(r)
     elements.triage(rep, PROP, importlib.import_module('mirsym.checks.c03'), raw2, classify_children)
-    rep.bounds['children'] = {'children_per_element': '<=2 (+ text-between triples) quick / <=3 thorough', 'hosts': c03.ELEM_HOSTS, 'child_kinds': sorted(c03.KIDS),
+    rep.bounds['children'] = {'children_per_element': '<=2 (+ text-between triples) quick / <=3 thorough', 'hosts': c03.ELEM_HOSTS, 'text_hosts': c03.TEXT_HOSTS, 'child_kinds': sorted(c03.KIDS),
                               'symbolic_text_length_in_child_lists': '1..3'}
     e3 = driver.E3()
     triage_text(rep, e3, raw)
